@@ -59,6 +59,30 @@ def np_vec(b):
     return np.array([float(x) for x in b], dtype=float)
 
 
+def typed(vals, dtype, shape=None):
+    """numpy array of the exact values in the requested dtype (round-3 hardening: the exact model does not
+    care about the dtype, the code must not either). int64 only for integral values."""
+    if dtype == "int64":
+        assert all(F(v).denominator == 1 for v in np.ravel(np.array(vals, dtype=object)))
+        arr = np.array([[int(F(x)) for x in r] for r in vals] if vals and isinstance(vals[0], (list, tuple))
+                       else [int(F(x)) for x in vals], dtype=np.int64)
+    else:
+        arr = np.array([[float(F(x)) for x in r] for r in vals] if vals and isinstance(vals[0], (list, tuple))
+                       else [float(F(x)) for x in vals], dtype=np.float64)
+    if shape is not None:
+        arr = arr.reshape(shape)
+    return arr
+
+
+def spd_int(rng, n):
+    """integer-valued SPD matrix (Gram of a small integer matrix + integer ridge)"""
+    m = n + rng.choice([0, 1, 2])
+    Z = [[rng.randint(-3, 3) for _ in range(n)] for _ in range(max(1, m))]
+    ridge = rng.choice([1, 1, 2])
+    return [[F(sum(Z[k][i] * Z[k][j] for k in range(len(Z))) + (ridge if i == j else 0)) for j in range(n)]
+            for i in range(n)]
+
+
 def kkt_check(A, b, d, allow_tol):
     """KKT certificate of  min 1/2 d'Ad - b'd, d >= 0  on exact Fractions with an explicit slack.
     Returns (ok, detail)."""
@@ -237,6 +261,16 @@ def p_init_for(rng, A, b, mode):
     return {"kind": "idx", "idx": rng.sample(range(n), k)}
 
 
+def effective(value, key):
+    """the value a SettingsInversion property resolves to: the pinned config default when None, else the
+    value's truthiness (0 / False / 1 / True are all legal inputs)"""
+    if value is None:
+        from autoconf import conf
+
+        return bool(conf.instance["general"]["inversion"][key])
+    return bool(value)
+
+
 def p_init_indices(p):
     if p is None:
         return None
@@ -338,6 +372,29 @@ class C05(PropertyCheck):
                 b = [x * sb for x in b]
             for pm in (["none", "prod"] + rng.sample(P_MODES[2:], 2)):
                 yield self._solver_case(rng, A, b, pm, f"solver_{akind}_{mode}_{pm}")
+        # 2b. round-3 hardening: integer-dtype systems (int64 ndarrays), 0x0 and 1x1 systems, P_initial omitted
+        for _ in range(60 if quick else 500):
+            n = rng.randint(1, min(nmax, 8))
+            A = spd_int(rng, n)
+            if rng.random() < 0.5:
+                u = [F(rng.choice([-3, -2, -1, 1, 2, 3])) for _ in range(n)]
+                b = matvec(A, u)
+            else:
+                b = [F(rng.randint(-6, 6)) for _ in range(n)]
+            for pm in ("none", "prod", rng.choice(P_MODES[2:])):
+                c = self._solver_case(rng, A, b, pm, f"solver_int64_{pm}")
+                c["dtype"] = "int64"
+                c["omit_p_initial"] = pm == "none" and rng.random() < 0.5
+                yield c
+        for pm in ("none", "mask_empty"):
+            yield {"tag": f"solver_0x0_{pm}", "kind": "solver", "A": [], "b": [],
+                   "p_init": None if pm == "none" else {"kind": "mask", "mask": []}}
+        for a, bb in itertools.product([F(1), F(3, 4), F(5)], [F(-2), F(0), F(1, 2), F(7)]):
+            for pm in ("none", "prod", "full", "mask_empty"):
+                for dt in ("float64",) + (("int64",) if a.denominator == 1 and bb.denominator == 1 else ()):
+                    c = self._solver_case(rng, [[a]], [bb], pm, f"solver_1x1_{pm}_{dt}")
+                    c["dtype"] = dt
+                    yield c
         # 3. the two reconstruction routines of inversion_util, incl. exception paths
         yield from self._recon_cases(rng, 120 if quick else 1200, nmax)
         # 4. real inversions
@@ -348,6 +405,21 @@ class C05(PropertyCheck):
                 "p_init": p_init_for(rng, A, b, pm)}
 
     def _recon_cases(self, rng, count, nmax):
+        # round-3 hardening: integer dtype / list / tuple containers, "set but falsy" settings crossed with the
+        # config default (None), empty and 1x1 systems
+        for _ in range(max(12, count // 5)):
+            n = rng.randint(1, min(nmax, 7))
+            A = spd_int(rng, n)
+            u = [F(rng.choice([-3, -2, -1, 1, 2, 3])) + (F(k, 1) if rng.random() < 0.3 else 0) for k in range(n)]
+            b = matvec(A, u) if rng.random() < 0.6 else [F(rng.randint(-6, 6)) for _ in range(n)]
+            for pv in (None, False, True, 0, 1):
+                yield {"tag": f"recon_posonly_int_p{pv!r}", "kind": "recon", "fn": "posonly", "A": qmat(A),
+                       "b": qlist(b), "p_initial": pv, "container": rng.choice(["int64", "float64"])}
+            cut = rng.randint(0, n - 1)
+            yield {"tag": "recon_posneg_containers", "kind": "recon", "fn": "posneg", "A": qmat(A), "b": qlist(b),
+                   "ranges": [[cut, n]], "container": rng.choice(["int64", "list", "tuple", "float64"]),
+                   "ranges_as": rng.choice(["list", "tuple"]), "force_check": rng.choice([False, True, 0])}
+        yield {"tag": "recon_posneg_empty", "kind": "recon", "fn": "posneg", "A": [], "b": [], "ranges": []}
         for _ in range(count):
             n = rng.randint(1, nmax)
             A, akind = spd_dyadic(rng, n)
@@ -409,26 +481,38 @@ class C05(PropertyCheck):
                 yield {"tag": "recon_posonly_empty", "kind": "recon", "fn": "posonly", "A": [], "b": [],
                        "p_initial": rng.random() < 0.5}
 
-    LAYOUTS = ["mapper", "mapper+func", "func+mapper", "mapper+mapper", "mapper+func+mapper", "func+func+mapper"]
+    LAYOUTS = ["mapper", "mapper+func", "func+mapper", "mapper+mapper", "mapper+func+mapper", "func+func+mapper",
+               "func"]
 
     def _inversion_cases(self, rng, layouts):
         for li in range(layouts):
             H, W = rng.randint(6, 9), rng.randint(6, 9)
             m, mkind = gen.random_mask(rng, H, W, margin=2,
                                        kind=rng.choice(["all", "block", "annulus", "cross", "bernoulli"]))
-            n_un = sum(1 for r in m for v in r if not v)
-            if n_un < 3:
-                continue
-            dmode = rng.choice(["positive", "zero_mean", "zero_mean", "negative"])
-            lo, hi = {"positive": (0, 8), "zero_mean": (-4, 4), "negative": (-8, 0)}[dmode]
-            data = [[gen.dyadic(rng, lo, hi, 3) for _ in range(W)] for _ in range(H)]
-            noise = [[gen.pos_dyadic(rng, 2, 3, 2) for _ in range(W)] for _ in range(H)]
-            psf = [[F(rng.randint(0, 4), 8) for _ in range(3)] for _ in range(3)]
-            psf[1][1] = F(1)
-            objs = []
             # every layout at least once per run (the parameter offset of a mapper behind other objects is
             # where index bookkeeping goes wrong), then random ones
             layout = self.LAYOUTS[li] if li < len(self.LAYOUTS) else rng.choice(self.LAYOUTS)
+            if li == len(self.LAYOUTS):  # degenerate size: exactly one unmasked pixel, one function, 1x1 system
+                m, mkind = gen.random_mask(rng, H, W, margin=2, kind="single")
+                layout = "func"
+            n_un = sum(1 for r in m for v in r if not v)
+            if n_un < 3:
+                layout = "func"  # a mesh needs an extended grid; single functions do not
+            dmode = rng.choice(["positive", "zero_mean", "zero_mean", "negative"])
+            lo, hi = {"positive": (0, 8), "zero_mean": (-4, 4), "negative": (-8, 0)}[dmode]
+            # round-3 hardening: a fifth of the layouts is integer-valued and fed as int64 arrays / int lists
+            ints = rng.random() < 0.2 or li == 1
+            if ints:
+                data = [[F(rng.randint(lo, hi)) for _ in range(W)] for _ in range(H)]
+                noise = [[F(rng.randint(1, 3)) for _ in range(W)] for _ in range(H)]
+                psf = [[F(rng.randint(0, 2)) for _ in range(3)] for _ in range(3)]
+                psf[1][1] = F(rng.randint(1, 4))
+            else:
+                data = [[gen.dyadic(rng, lo, hi, 3) for _ in range(W)] for _ in range(H)]
+                noise = [[gen.pos_dyadic(rng, 2, 3, 2) for _ in range(W)] for _ in range(H)]
+                psf = [[F(rng.randint(0, 4), 8) for _ in range(3)] for _ in range(3)]
+                psf[1][1] = F(1)
+            objs = []
             # the exact model re-solves every passive-set system from scratch in big rationals (~n^4 per
             # case): keep the quick tier's systems below ~30 parameters
             smax = 4 if (self._tier == "quick" and layout.count("mapper") > 1) else 5
@@ -438,14 +522,17 @@ class C05(PropertyCheck):
                                  "coefficient": q(gen.pos_dyadic(rng, 1, 4, 2))})
                 else:
                     k = rng.randint(1, 2)
+                    k = 1 if n_un < 3 else k
                     objs.append({"type": "func", "params": k, "regularized": rng.random() < 0.3,
-                                 "matrix": qmat([[gen.dyadic(rng, 0, 4, 2) for _ in range(k)]
-                                                 for _ in range(n_un)])})
+                                 "matrix": qmat([[(F(rng.randint(0, 4)) if ints else gen.dyadic(rng, 0, 4, 2))
+                                                  for _ in range(k)] for _ in range(n_un)])})
             n_mappers = sum(1 for o in objs if o["type"] == "mapper")
             sub = rng.choice([1, 2])
             base = {"kind": "inversion", "H": H, "W": W, "mask": "".join("1" if v else "0" for r in m for v in r),
                     "data": qmat(data), "noise": qmat(noise), "psf": qmat(psf), "objs": objs, "sub": sub,
-                    "scale": q(rng.choice([F(1), F(1, 2), F(2)]))}
+                    "scale": q(rng.choice([F(1), F(1, 2), F(2)])),
+                    "ints": rng.choice(["int64", "list"]) if ints else None,
+                    "via": rng.choice(["factory", "factory", "imaging_from", "class"])}
             for wt, pos, pinit, force in itertools.product([False, True], [True, False], [True, False],
                                                            [True, False]):
                 if not pos and (not pinit or not force):
@@ -456,13 +543,26 @@ class C05(PropertyCheck):
                           "positive_only_uses_p_initial": pinit, "force_edge_pixels_to_zeros": force,
                           "force_edge_image": False, "image_pixels_source_zero": None})
                 yield c
+            # round-3 hardening: "set but falsy" / None settings crossed with the config defaults
+            for pos, pinit, force in rng.sample([(None, None, True), (None, False, 0), (1, None, 1), (0, None, True),
+                                                 (None, 0, False), (1, 1, 0), (None, True, 1)], 3):
+                c = dict(base)
+                c.update({"tag": f"inv_{layout}_{dmode}_settings_{pos!r}_{pinit!r}_{force!r}",
+                          "use_w_tilde": rng.random() < 0.5, "use_positive_only_solver": pos,
+                          "positive_only_uses_p_initial": pinit, "force_edge_pixels_to_zeros": force,
+                          "force_edge_image": False, "image_pixels_source_zero": None})
+                yield c
             if n_mappers == 1:  # force_edge_image_pixels_to_zeros with an image-pixel list
                 c = dict(base)
                 zs = sorted(rng.sample(range(n_un), rng.randint(1, min(3, n_un))))
                 c.update({"tag": f"inv_{layout}_{dmode}_source_zero", "use_w_tilde": rng.random() < 0.5,
                           "use_positive_only_solver": True, "positive_only_uses_p_initial": rng.random() < 0.5,
                           "force_edge_pixels_to_zeros": True, "force_edge_image": True,
-                          "image_pixels_source_zero": zs})
+                          "image_pixels_source_zero": zs, "zero_as": rng.choice(["list", "ndarray"])})
+                yield c
+                c = dict(c)  # an explicitly empty list: nothing beyond the edge is forced
+                c.update({"tag": f"inv_{layout}_{dmode}_source_zero_empty", "image_pixels_source_zero": [],
+                          "zero_as": "list"})
                 yield c
 
     # ------------------------------------------------------------------ implementation
@@ -472,8 +572,10 @@ class C05(PropertyCheck):
         if kind == "solver":
             from autoarray.util.fnnls import fnnls_cholesky
 
-            A = np_mat(fr_mat(case["A"]))
-            b = np_vec(fr_vec(case["b"]))
+            n = len(case["b"])
+            dt = case.get("dtype", "float64")
+            A = typed(case["A"], dt, (n, n))
+            b = typed(case["b"], dt, (n,))
             p = case["p_init"]
             if p is None:
                 P = np.zeros(0, dtype=int)
@@ -482,7 +584,10 @@ class C05(PropertyCheck):
             else:
                 P = np.array(p["idx"], dtype=int)
             try:
-                d = fnnls_cholesky(A, b.copy(), P_initial=P)
+                if case.get("omit_p_initial"):
+                    d = fnnls_cholesky(A, b.copy())  # the default argument
+                else:
+                    d = fnnls_cholesky(A, b.copy(), P_initial=P)
             except RuntimeError:
                 return {"err": "runtime"}
             except (np.linalg.LinAlgError, ValueError):
@@ -493,13 +598,23 @@ class C05(PropertyCheck):
             from autoarray import exc
 
             n = len(case["b"])
-            A = np_mat(fr_mat(case["A"])) if n else np.zeros((0, 0))
-            b = np_vec(fr_vec(case["b"]))
+            cont = case.get("container", "float64")
+            if cont in ("int64", "float64"):
+                A = typed(case["A"], cont, (n, n))
+                b = typed(case["b"], cont, (n,))
+            else:  # plain Python containers of ints (posneg only: numpy.linalg.solve accepts them)
+                conv = list if cont == "list" else tuple
+                A = conv(conv(int(F(x)) for x in r) for r in case["A"])
+                b = conv(int(F(x)) for x in case["b"])
+            rconv = tuple if case.get("ranges_as") == "tuple" else list
             try:
                 if case["fn"] == "posneg":
+                    kw = {}
+                    if "force_check" in case:
+                        kw["force_check_reconstruction"] = case["force_check"]
                     s = inversion_util.reconstruction_positive_negative_from(
                         data_vector=b, curvature_reg_matrix=A,
-                        mapper_param_range_list=[list(r) for r in case["ranges"]])
+                        mapper_param_range_list=[rconv(r) for r in case["ranges"]], **kw)
                 else:
                     s = inversion_util.reconstruction_positive_only_from(
                         data_vector=b, curvature_reg_matrix=A,
@@ -514,9 +629,18 @@ class C05(PropertyCheck):
         sc = float(F(case["scale"]))
         m = np.array([c == "1" for c in case["mask"]], dtype=bool).reshape(H, W)
         mask = aa.Mask2D(mask=m, pixel_scales=(sc, sc))
-        data = aa.Array2D.no_mask(values=np_mat(fr_mat(case["data"])), pixel_scales=(sc, sc))
-        noise = aa.Array2D.no_mask(values=np_mat(fr_mat(case["noise"])), pixel_scales=(sc, sc))
-        psf = aa.Kernel2D.no_mask(values=np_mat(fr_mat(case["psf"])), pixel_scales=(sc, sc))
+        ints = case.get("ints")
+
+        def vals(mat):
+            if ints == "int64":
+                return typed(mat, "int64")
+            if ints == "list":
+                return [[int(F(x)) for x in r] for r in mat]
+            return np_mat(fr_mat(mat))
+
+        data = aa.Array2D.no_mask(values=vals(case["data"]), pixel_scales=(sc, sc))
+        noise = aa.Array2D.no_mask(values=vals(case["noise"]), pixel_scales=(sc, sc))
+        psf = aa.Kernel2D.no_mask(values=vals(case["psf"]), pixel_scales=(sc, sc))
         sub = case["sub"]
         ds = aa.Imaging(
             data=data, noise_map=noise, psf=psf,
@@ -536,7 +660,7 @@ class C05(PropertyCheck):
             else:
                 objs.append(aa.m.MockLinearObjFuncList(
                     parameters=o["params"], grid=aa.Grid2D.from_mask(mask=mask),
-                    mapping_matrix=np_mat(fr_mat(o["matrix"])),
+                    mapping_matrix=(typed(o["matrix"], "int64") if ints else np_mat(fr_mat(o["matrix"]))),
                     regularization=aa.reg.Constant(coefficient=1.0) if o["regularized"] else None))
         settings = aa.SettingsInversion(
             use_w_tilde=case["use_w_tilde"],
@@ -544,9 +668,29 @@ class C05(PropertyCheck):
             positive_only_uses_p_initial=case["positive_only_uses_p_initial"],
             force_edge_pixels_to_zeros=case["force_edge_pixels_to_zeros"],
             force_edge_image_pixels_to_zeros=case["force_edge_image"],
-            image_pixels_source_zero=case["image_pixels_source_zero"],
+            image_pixels_source_zero=(np.array(case["image_pixels_source_zero"], dtype=int)
+                                      if case.get("zero_as") == "ndarray" else case["image_pixels_source_zero"]),
         )
+        via = case.get("via", "factory")
+        if via == "imaging_from":
+            from autoarray.inversion.inversion import factory
+
+            return factory.inversion_imaging_from(dataset=ds, linear_obj_list=objs, settings=settings), objs
+        if via == "class" and not case["use_w_tilde"]:
+            return aa.InversionImagingMapping(dataset=ds, linear_obj_list=objs, settings=settings), objs
         return aa.Inversion(dataset=ds, linear_obj_list=objs, settings=settings), objs
+
+    @staticmethod
+    def _norm(case):
+        """inversion case with the three solver settings resolved to what SettingsInversion reports"""
+        if case.get("kind") != "inversion":
+            return case
+        c = dict(case)
+        c["use_positive_only_solver"] = effective(case["use_positive_only_solver"], "use_positive_only_solver")
+        c["positive_only_uses_p_initial"] = effective(case["positive_only_uses_p_initial"],
+                                                      "positive_only_uses_p_initial")
+        c["force_edge_pixels_to_zeros"] = bool(case["force_edge_pixels_to_zeros"])
+        return c
 
     def _run_inversion(self, aa, case):
         from autoarray import exc
@@ -570,7 +714,7 @@ class C05(PropertyCheck):
             zero = [int(v) for arr in inv.mapper_zero_pixel_list for v in np.asarray(arr)]
             for o, st in zip(objs, starts):
                 if isinstance(o, AbstractMapper):
-                    mm = np.asarray(o.mapping_matrix)[case["image_pixels_source_zero"]]
+                    mm = np.asarray(o.mapping_matrix)[list(case["image_pixels_source_zero"])]
                     zero_expect += [int(j) + st for j in np.where((mm != 0).any(axis=0))[0]]
         aux["zero"] = zero
         aux["zero_expect"] = zero_expect
@@ -587,10 +731,15 @@ class C05(PropertyCheck):
                               for o in objs]
         tot = inv.mapped_reconstructed_data
         obs["mapped_total"] = qlist(np.asarray(tot.array if hasattr(tot, "array") else tot).ravel())
+        # the `image` twins of the same quantities
+        mi = inv.mapped_reconstructed_image_dict
+        obs["image_dict"] = [qlist(np.asarray(mi[o]).ravel()) for o in objs]
+        obs["image_total"] = qlist(np.asarray(inv.mapped_reconstructed_image).ravel())
         return obs
 
     # ------------------------------------------------------------------ model
     def model_requests(self, case, impl_obs):
+        case = self._norm(case)
         kind = case["kind"]
         if kind == "solver":
             n = len(case["b"])
@@ -600,7 +749,8 @@ class C05(PropertyCheck):
             return [{"op": "c05.reconstruction", "A": case["A"], "b": case["b"], "eps": q(EPS),
                      "atol": q(1e-8), "rtol": q(1e-5),
                      "use_positive_only_solver": case["fn"] == "posonly",
-                     "positive_only_uses_p_initial": bool(case.get("p_initial", False)),
+                     "positive_only_uses_p_initial": effective(case.get("p_initial", False),
+                                                               "positive_only_uses_p_initial"),
                      "force_edge_pixels_to_zeros": False, "mapper_ranges": case.get("ranges", [])}]
         aux = impl_obs["aux"]
         reqs = [{"op": "c05.reconstruction", "A": aux["A"], "b": aux["b"], "eps": q(EPS),
@@ -714,6 +864,7 @@ class C05(PropertyCheck):
         return True, ""
 
     def _oracle_inversion(self, case, obs):
+        case = self._norm(case)
         aux = obs["aux"]
         A, b = fr_mat(aux["A"]), fr_vec(aux["b"])
         n = len(b)
@@ -771,6 +922,8 @@ class C05(PropertyCheck):
         got = fr_vec(obs["mapped_total"])
         if len(got) != len(total) or any(abs(x - y) > tol * (len(imgs) + 1) for x, y in zip(got, total)):
             return False, "total mapped reconstructed data is not the sum over the linear objects"
+        if obs.get("image_dict") != obs["mapped_dict"] or obs.get("image_total") != obs["mapped_total"]:
+            return False, "mapped_reconstructed_image(_dict) differs from mapped_reconstructed_data(_dict)"
         return True, ""
 
     # ------------------------------------------------------------------ bookkeeping
@@ -793,6 +946,7 @@ class C05(PropertyCheck):
         cycles until the 10000-iteration guard raises.  Input class: degenerate optimum (decided in exact
         arithmetic on the input); only the exception outcome belongs to the finding — a non-optimal
         *returned* solution on the same input is still reported."""
+        case = self._norm(case)
         if case.get("fn") == "posneg":
             return None
         if not (isinstance(obs, dict) and obs.get("err") in ("runtime", "InversionException")):
